@@ -11,6 +11,7 @@ package robase64
 //@   props C18
 //@   binds v encoder
 //@   calls DecodeString
+//@   params v
 //@   maypanic
 //@   track call.*
 //@   ensures [calls-the-wrapped-function-once|C18] count(call.ANY) == 1 && called(call.Encoding.DecodeString)
@@ -21,6 +22,7 @@ package robase64
 //@   props C18
 //@   binds v encoder
 //@   calls EncodeToString
+//@   params v
 //@   maypanic
 //@   track call.*
 //@   ensures [calls-the-wrapped-function-once|C18] count(call.ANY) == 1 && called(call.Encoding.EncodeToString)
